@@ -167,6 +167,11 @@ func init() {
 		}
 		return m.ctx.And(cs...)
 	})
+	reg("Unsupported", func(m *Machine, fn *ssa.Function, a []Value) Value {
+		m.notEnc("%s", m.argStr(a[0]))
+		return nil
+	})
+	reg("AtReplayEnd", func(m *Machine, fn *ssa.Function, a []Value) Value { return nil })
 	reg("PermuteMaps", func(m *Machine, fn *ssa.Function, a []Value) Value {
 		m.permuteMaps = a[0].(*sym.Term).IsTrue()
 		return nil
